@@ -63,7 +63,7 @@ CLAIMS = {
         text="For every generating lookup of the bounded graphs the real code must call the factory exactly once, return the canonical "
              "generated object, cache it under the factory's free keys only, keep it out of the parent and of later children, and raise "
              "AsyncResourceError (registering nothing, running no factory body) for sync lookups of async factories of four callable shapes.",
-        design_ref="DESIGN.md §5 C04, §4.1", note="Trusted as C02. Concurrent lookups are decided by the race family, not by this sequential graph."),
+        design_ref="DESIGN.md §5 C04, §4.1", note="Trusted as C02; plus the race family (specs/Race.tla + monitor P_Race): all programs of 3 tasks over 2 contexts x all schedules of begin/release steps on asyncio and trio."),
     "C18": dict(
         technique="exhaustive replay of the TLC state graph of specs/Ctx.tla with a resource_added listener on every context; the events "
                   "received during each step are compared with the step's predicted events (design property EventsRight checked by TLC)",
@@ -71,6 +71,15 @@ CLAIMS = {
              "that listeners on all contexts must receive: one for a successful add / factory registration / first generation, none for failing "
              "calls and plain lookups, none on any other context.",
         design_ref="DESIGN.md §5 C18, §4.1", note="Trusted as C02. For a generation that could not take all factory keys both 'all factory types' and 'registered types' are accepted."),
+    "C13": dict(
+        technique="exhaustive replay of the TLC state graph of specs/Ctx.tla with Life=TRUE (creation, entry, start and end of teardown as "
+                  "separate steps; blocks ending by return / exception / cancellation) against real contexts owned by worker tasks; every "
+                  "operation is tried in every life-cycle state; design property Forward checked by TLC",
+        text="The complete operation x life-cycle-state matrix of the bounded model (never entered, open, inside teardown - parked by a probe "
+             "callback -, closed after clean / failing / cancelled exits, teardown that raised, parent left with an open child) is executed "
+             "on real contexts: RuntimeError exactly where the model says with nothing changed, allowed operations succeeding during teardown "
+             "(add_resource_factory excepted), re-entry refused, the closed flag after every step, the open-child error on clean exits.",
+        design_ref="DESIGN.md §5 C13, §4.1", note="Trusted: TLC, the life-cycle executor (worker task per context, probe callback to hold the closing state). For a block that already ends with an exception or cancellation while a child is open, either that outcome or the stack-corruption error is accepted (the statement does not decide)."),
 }
 
 PENDING_REASON = "check not built yet in this build session; planned (DESIGN.md §5)"
